@@ -72,7 +72,7 @@ Init == /\ fields = <<>> /\ helpers = <<>> /\ ints = <<>> /\ conds = <<>> /\ enu
 FName(n) == "f" \o ToString(n)
 NextName == FName(nphys + nvirt + 1)
 IntNames == {ints[j].n : j \in 1..Len(ints)}
-Small == {j \in 1..Len(ints) : ints[j].max <= 3}         \* usable in offsets / sizes
+Small == {j \in 1..Len(ints) : ints[j].small}           \* value <= 3 whenever readable: usable in offsets / sizes
 Orders == {"LE", "BE"}
 
 (* existence conditions over what exists so far *)
@@ -86,7 +86,10 @@ CondSet ==
   \cup {Op2("==", R(<<enums[j]>>), En(KindValues[q].name, KindValues[q].v)) : j \in 1..Len(enums), q \in {2, 3}}
 
 Push(f) == fields' = Append(fields, f)
-NoteInt(n, mx, isCond) == ints' = Append(ints, [n |-> n, max |-> mx, cond |-> isCond])
+(* max: the largest magnitude the field's TYPE admits (what static bounds see); small: value <= 3 whenever readable *)
+IntRec(n, mx, sm, isCond, isVirt) == [n |-> n, max |-> mx, small |-> sm, cond |-> isCond, virt |-> isVirt]
+NoteInt(n, mx, sm, isCond, isVirt) == ints' = Append(ints, IntRec(n, mx, sm, isCond, isVirt))
+TypeMax(st, nbits) == IF st = "Bcd" THEN (10 ^ (nbits \div 4)) * (2 ^ (nbits % 4)) - 1 ELSE 2 ^ nbits
 NoteEnum(n) == enums' = Append(enums, n)
 NoteCond(n, c) == conds' = IF c # TrueE THEN Append(conds, n) ELSE conds
 
@@ -98,7 +101,7 @@ AddScalar ==
      /\ LET n == NextName
             rq == IF req = 1 /\ nb = 1 /\ st = "UInt" THEN << Op2("<=", This, I(3)) >> ELSE <<>>
         IN /\ Push(Scalar(n, I(cursor), nb, st, o, c, rq))
-           /\ NoteInt(n, IF rq # <<>> THEN 3 ELSE 1000, c # TrueE)
+           /\ NoteInt(n, TypeMax(st, 8 * nb), rq # <<>>, c # TrueE, FALSE)
            /\ NoteCond(n, c)
      /\ cursor' = cursor + nb /\ nphys' = nphys + 1 /\ UNCHANGED <<helpers, nvirt, sealed, enums>>
 
@@ -111,7 +114,7 @@ AddNext ==
             p == ph[Len(ph)]
             n == NextName
         IN /\ Push(With(Scalar(n, Op2("+", p.start, p.size), nb, st, o, TrueE, <<>>), "start_next", TRUE))
-           /\ NoteInt(n, 1000, FALSE) /\ UNCHANGED conds
+           /\ NoteInt(n, TypeMax(st, 8 * nb), FALSE, FALSE, FALSE) /\ UNCHANGED conds
      /\ cursor' = cursor + nb + 3 /\ nphys' = nphys + 1 /\ UNCHANGED <<helpers, nvirt, sealed, enums>>
 
 (* enum-typed byte *)
@@ -129,7 +132,7 @@ AddDynamic ==
      /\ nphys < target[1]
      /\ LET n == NextName IN
         /\ Push(Scalar(n, Op2("+", R(<<ints[j].n>>), I(cursor)), 1, st, "LE", TrueE, <<>>))
-        /\ NoteInt(n, 1000, ints[j].cond) /\ UNCHANGED conds
+        /\ NoteInt(n, 256, FALSE, ints[j].cond, FALSE) /\ UNCHANGED conds
      /\ cursor' = cursor + 4 /\ nphys' = nphys + 1 /\ UNCHANGED <<helpers, nvirt, sealed, enums>>
 
 (* automatic-length byte array sized by a small field; fixed array of two 16-bit integers *)
@@ -167,7 +170,7 @@ AddAnonBits ==
                      bitsize |-> 8 * nb, order |-> o, anon |-> TRUE, inline |-> FALSE]
         IN /\ fields' = fields \o <<cont, AnonAlias(m1, n), AnonAlias(m2, n), AnonAlias(m3, n)>>
            /\ helpers' = Append(helpers, [name |-> tn, def |-> def])
-           /\ ints' = ints \o << [n |-> m1, max |-> 3, cond |-> c # TrueE], [n |-> m2, max |-> 1000, cond |-> c # TrueE] >>
+           /\ ints' = ints \o << IntRec(m1, 3, TRUE, c # TrueE, FALSE), IntRec(m2, 16, FALSE, c # TrueE, FALSE) >>
            /\ UNCHANGED conds
      /\ cursor' = cursor + nb /\ nphys' = nphys + 1 /\ UNCHANGED <<nvirt, sealed, enums>>
 
@@ -192,7 +195,10 @@ AddVirt ==
   /\ \E j \in 1..Len(ints), m \in {1, Len(ints)}, c \in {1, 100}, t \in 1..8 :
        LET a == R(<<ints[j].n>>)  b == R(<<ints[m].n>>)  n == NextName
            isScalar(nm) == \E q \in 1..Len(fields) : fields[q].name = nm /\ fields[q].kind = "scalar" /\ fields[q].st \in {"UInt", "Int"}
-       IN /\ CASE t = 1 -> Push(Virt(n, Op2("+", a, I(c)), "int", <<>>))
+           \* products stay far inside TLC's integers; an alias of a (non-constant) virtual field is left to C07 (finding F10)
+           guard == (t = 2 => ints[j].max <= (2 ^ 26) \div ints[m].max) /\ (t = 7 => ~ints[j].virt)
+       IN /\ guard
+          /\ CASE t = 1 -> Push(Virt(n, Op2("+", a, I(c)), "int", <<>>))
                [] t = 2 -> Push(Virt(n, Op2("*", a, b), "int", <<>>))
                [] t = 3 -> Push(Virt(n, Op2("-", a, b), "int", << Op2(">=", This, I(0)) >>))
                [] t = 4 -> Push(Virt(n, Op3("max", a, b, I(c)), "int", <<>>))
@@ -201,7 +207,7 @@ AddVirt ==
                [] t = 7 -> Push(Alias(n, <<ints[j].n>>))
                [] t = 8 -> IF isScalar(ints[j].n) THEN Push(Xform(n, "c-y", ints[j].n, c, Op2("-", I(c), a)))
                            ELSE Push(Xform(n, "y+c", ints[j].n, c, Op2("+", a, I(c))))
-          /\ IF t \in {1, 7} THEN NoteInt(n, 1000, TRUE) ELSE UNCHANGED ints
+          /\ IF t \in {1, 7} THEN NoteInt(n, ints[j].max + (IF t = 1 THEN c ELSE 0), FALSE, TRUE, TRUE) ELSE UNCHANGED ints
   /\ nvirt' = nvirt + 1 /\ UNCHANGED <<helpers, conds, cursor, nphys, sealed, enums>>
 
 Program ==
